@@ -649,16 +649,20 @@ class PolygonObjectsAndReaders(_NumericJob):
             for k, (x, cm) in enumerate(c["polys"]):
                 xc[k, :len(cm)] = x
                 cc[k, :len(cm)] = cm
+            # use-masks with holes in the FITS table (a polygon whose caps are not all in use)
+            fmask = [rng.choice([(1 << len(cm)) - 1, rng.randrange(0, 1 << len(cm)), ((1 << len(cm)) - 1) & ~1]) for x, cm in c["polys"]]
             cols = [fits.Column(name="XCAPS", format="%dD" % (3 * mc), dim="(3,%d)" % mc, array=xc), fits.Column(name="CMCAPS", format="%dD" % mc, array=cc),
                     fits.Column(name="NCAPS", format="J", array=np.array([len(cm) for x, cm in c["polys"]])), fits.Column(name="WEIGHT", format="D", array=np.ones(n)),
                     fits.Column(name="PIXEL", format="J", array=np.arange(n)), fits.Column(name="STR", format="D", array=np.full(n, 0.5)),
-                    fits.Column(name="USE_CAPS", format="K", array=np.array([(1 << len(cm)) - 1 for x, cm in c["polys"]]))]
+                    fits.Column(name="USE_CAPS", format="K", array=np.array(fmask))]
             ff = os.path.join(tmp, "p.fits")
             fits.BinTableHDU.from_columns(cols).writeto(ff)
             fromfits = M.read_fits_polygons(ff)
             fromfits_conv = M.read_fits_polygons(ff, convert=True)
-            exp = [next((k for k, (x, cm) in enumerate(c["polys"]) if _inside(x, cm, (1 << len(cm)) - 1, p)), -1) for p in pts]
+            exp_all = [next((k for k, (x, cm) in enumerate(c["polys"]) if _inside(x, cm, (1 << len(cm)) - 1, p)), -1) for p in pts]
+            exp_msk = [next((k for k, (x, cm) in enumerate(c["polys"]) if _inside(x, cm, fmask[k], p)), -1) for p in pts]
             for label, src in (("objects", M.PolygonList(fresh)), ("Mangle text file", fromply), ("FITS table", fromfits), ("FITS table converted", fromfits_conv)):
+                exp = exp_msk if label.startswith("FITS") else exp_all
                 if len(src) != n:
                     bad.append(("text_and_fits_files_give_the_same_polygons_and_lookup", "%s: %d polygons for %d written" % (label, len(src), n)))
                     break
